@@ -293,6 +293,14 @@ func runC06(b *runner.Batch) {
 	b.Hit("two-ticks-in-one-block")
 	checkProbeCalls()
 	e.checkNetmapState(nil)
+	// an early jump (the history is not full yet) onto every value around the first byte boundary of the
+	// epoch encoding, one value per batch (seeded change C06-5: an eviction target that wraps around)
+	if b.Index%2 == 1 {
+		d := int64((b.Index/2)%17) - 13
+		doTick(256+d, 0, nil)
+		b.Hit("early-jump-across-a-byte-boundary")
+		e.checkNetmapState(nil)
+	}
 
 	nops := 100
 	if b.Thorough() {
@@ -319,6 +327,13 @@ func runC06(b *runner.Batch) {
 			ep := e.m.epoch + runner.Pick(b.Rng, []int64{1, 1, 1, 1, 1, 2, 5, 0, -1, -e.m.epoch})
 			if b.Rng.IntN(40) == 0 {
 				ep = 1 << 31
+			}
+			if b.Rng.IntN(20) == 0 {
+				// a jump next to a boundary of the epoch encoding
+				if bd := runner.Pick(b.Rng, []int64{1 << 7, 1 << 8, 1 << 15, 1 << 16, 1 << 24}); bd > e.m.epoch+13 {
+					ep = bd + int64(b.Rng.IntN(16)) - 13
+					b.Hit("jump-next-to-an-encoding-boundary")
+				}
 			}
 			if e.m.epoch >= 1<<31 {
 				ep = e.m.epoch + 1
